@@ -2,6 +2,7 @@ package main
 
 import (
 	"fmt"
+	"os"
 	"sort"
 	"sync"
 	"time"
@@ -111,11 +112,21 @@ func c40(r *vkit.Run) {
 	}
 
 	n := r.N(5000, 150000)
+	if v := os.Getenv("VSPDY_N"); v != "" { // development only
+		fmt.Sscan(v, &n)
+	}
 	vkit.Parallel(n, 0, func(i int) {
 		spec := genCase(r, i)
 		c40WriteAhead(r, i, true)
+		t0 := time.Now()
 		res := runCase(spec)
 		c40WriteAhead(r, i, false)
+		if d := time.Since(t0); os.Getenv("VSPDY_TIMING") != "" {
+			r.Count("ms_"+spec.Kind, d.Milliseconds())
+			if d > 2*time.Second {
+				fmt.Fprintf(os.Stderr, "slow case %d kind=%s %v inconcl=%q\n", i, spec.Kind, d, res.Inconcl)
+			}
+		}
 		c40Report(r, spec, res)
 	})
 	c40Epilogue(r, base)
